@@ -676,7 +676,7 @@ func (cl *compiler) compileNativeCall(key funcKey, variadic int, funcExpr ast.Ex
 			}
 		}
 		if len(variadicArgs) > 255 {
-			panic(cl.errorf(funcExpr, "too many variadic args"))
+			panic(cl.errorf(variadicArgs[255], "too many variadic args"))
 		}
 		// Even if len(variadicArgs) is 0, we still need to overwrite
 		// the old variadicLen value, so the variadic func is not confused
